@@ -186,6 +186,11 @@ func (u *unit) rootMayHold(r int32, t string) bool {
 		decl = paramType(rt.fn, rt.idx)
 	case RGlobal:
 		decl = rt.g.Type()
+		// a package-level variable holding function values (a registry of closures)
+		// can reach whatever those closures captured
+		if u.a.holdsFuncs(decl) {
+			return true
+		}
 	}
 	if decl == nil {
 		return true
@@ -345,4 +350,48 @@ func (a *Analysis) DebugReach(t types.Type) (bool, []string) {
 	}
 	sort.Strings(out)
 	return r.all, out
+}
+
+// holdsFuncs reports whether values of type t can contain function values.
+func (a *Analysis) holdsFuncs(t types.Type) bool {
+	k := "funcs:" + typeKey(t)
+	if r, ok := a.reachC[k]; ok {
+		return r.all
+	}
+	res := &reachSet{}
+	a.reachC[k] = res
+	seen := map[string]bool{}
+	var walk func(t types.Type, d int) bool
+	walk = func(t types.Type, d int) bool {
+		if d > 6 {
+			return false
+		}
+		t = types.Unalias(t)
+		key := typeKey(t)
+		if seen[key] {
+			return false
+		}
+		seen[key] = true
+		switch u := t.Underlying().(type) {
+		case *types.Signature:
+			return true
+		case *types.Pointer:
+			return walk(u.Elem(), d+1)
+		case *types.Slice:
+			return walk(u.Elem(), d+1)
+		case *types.Array:
+			return walk(u.Elem(), d+1)
+		case *types.Map:
+			return walk(u.Key(), d+1) || walk(u.Elem(), d+1)
+		case *types.Struct:
+			for i := 0; i < u.NumFields(); i++ {
+				if walk(u.Field(i).Type(), d+1) {
+					return true
+				}
+			}
+		}
+		return false
+	}
+	res.all = walk(t, 0)
+	return res.all
 }
